@@ -124,8 +124,16 @@ theorem hasClosure_of_resolved (subs : List Ex) : ∀ (e : Ex), e.resolved subs 
       simpa only [Ex.subMergers, matchIdx_any_false hm, Bool.false_eq_true, if_false] using hs
   | unary f w ih =>
     intro hr hw
-    obtain ⟨j, cj, hj, hf, hs⟩ := ih hr hw
-    exact ⟨j, cj, hj, hf, by simpa only [Ex.subMergers] using hs⟩
+    cases hm : (Ex.unary f w).matchIdx subs with
+    | some i =>
+      simp only [Ex.resolved, hm] at hr
+      exact hasClosure_matched hm hr (fun cj hj => by
+        simp only [Ex.subMergers, matchIdx_any_true hm, if_true]; exact getD_map_sub subs _ i cj hj)
+    | none =>
+      simp only [Ex.resolved, hm] at hr
+      obtain ⟨j, cj, hj, hf, hs⟩ := ih hr hw
+      refine ⟨j, cj, hj, hf, ?_⟩
+      simpa only [Ex.subMergers, matchIdx_any_false hm, Bool.false_eq_true, if_false] using hs
   | shift w off _ => intro hr; simp [Ex.resolved] at hr
   | ptile id v pe n _ _ => intro hr; simp [Ex.resolved] at hr
 
